@@ -238,6 +238,7 @@ func checkC16(c *Ctx, r *Report) {
 	r.rule("C16.R7", "the tag number a member is matched against comes from its `tagNum:` parameter only: every assignment of fieldParameters.tagNumber in the tag parser lies behind the test for that prefix", 1)
 	r.rule("C16.R8", "a tag number that does not fit 64 bits is refused: the guard behind the base-128 loop admits at most nine tag-number octets (63 bits) - a tenth wraps the accumulator, and an element tagged 2^64+k is taken for the member tagged k", 1)
 	r.rule("C16.R5", "reflect Set in the special-type cases is type-correct", 3)
+	r.rule("C16.R9", "every typed reflect setter (SetInt, SetBool, SetString ...) of the decoder is reached only for a kind it accepts", 3)
 
 	posts := c16Posts(c, r, "C16.R1")
 	checkParseWidths(c, r, "C16.R6", c.fn("cdr/asn", "parseFieldParameters"))
@@ -486,6 +487,7 @@ func checkC16(c *Ctx, r *Report) {
 
 	// ---- R5 reflect.Set assignability
 	c16ReflectSet(c, r)
+	c16KindTypedSetters(c, r, "C16.R9")
 }
 
 // guardedByEquivalentIndex: the nil test and the dereference go through two
